@@ -148,23 +148,44 @@ def _sample(cases, n, rng):
     return [cases[i] for i in sorted(chosen)]
 
 
-def _culprit(req):
-    """The input class that most plausibly decides the fate of the request (pipeline order)."""
-    if req['method'] == 'GET':
-        return 'path', req['path']
-    if req['via'] == 'handler':
-        if req['framing'] not in ('cl_exact', 'chunked_ok'):
-            return 'framing', req['framing']
-        if req['coding'] not in ('none', 'supported'):
+def _culprit(req, clause, stage, actual):
+    """The input class to name in the description of a violation (labelling only; the verdict is TLC's).
+
+    By the place where an escaped exception came from, by clause, else by the deciding stage of the model.
+    """
+    post = req['method'] == 'POST'
+    wire = req['via'] == 'handler' and post
+    where = actual.get('where', '')
+    if clause == 'NoEscape' and wire:
+        if where.startswith('compression.') or actual['escaped'] == 'DecompressError':
+            if req['coding'] in ('none', 'supported'):   # a sound coding spoilt by the framing (cut / no body)
+                return 'framing', req['framing']
             return 'coding', req['coding']
-        if req['path'] in ('unknown_prefix', 'root', 'no_path'):
-            return 'path', req['path']
-    if req['xml'] != 'wf':
-        return 'xml', req['xml']
-    if req['envelope'] != 'valid':
-        return 'envelope', req['envelope']
-    if req['path'] != 'valid':
+        if where in ('httpreader._read_dechunk', 'httpreader._read_until', 'httpreader.read_request_body'):
+            return 'framing', req['framing']
+    if clause == 'NoEscape' and where in ('httprequesthandler.get_first_path_element',
+                                          'pathelementregistry.get_instance', 'httprequesthandler.do_GET'):
         return 'path', req['path']
+    if clause in ('NoExpansion', 'NoFetch') and req['xml'] not in ('wf', 'na'):
+        return 'xml', req['xml']
+    if clause in ('Total', 'BoundedRead') and wire and req['framing'] not in ('cl_exact', 'chunked_ok'):
+        return 'framing', req['framing']
+    if stage == 'Read':
+        return 'framing', req['framing']
+    if stage == 'Decode':
+        return ('coding', req['coding']) if req['coding'] not in ('none', 'supported') else ('framing', req['framing'])
+    if stage == 'Route':
+        return 'path', req['path']
+    if stage == 'Parse':
+        return ('xml', req['xml']) if req['xml'] != 'wf' else ('framing', req['framing'])
+    if stage in ('Validate', 'Dispatch', 'Handle'):
+        if post and req['envelope'] != 'valid':
+            return 'envelope', req['envelope']
+        if req['path'] != 'valid':
+            return 'path', req['path']
+        if wire and req['framing'] not in ('cl_exact', 'chunked_ok'):
+            return 'framing', req['framing']
+        return 'target', req['target']
     return 'none', 'valid'
 
 
@@ -293,23 +314,28 @@ def check(run, replay_path=None):
         outcome_stats[key] = outcome_stats.get(key, 0) + 1
         run.distinct_traces.add((tuple(req[f] for f in FIELDS), kind))
     run.note('outcomes', dict(sorted(outcome_stats.items())))
-    for (ti, _li, clause) in tracecheck.first_rejects(rejects):
+    for (ti, _li, clause_stage) in tracecheck.first_rejects(rejects):
         idx, v, actual = results[ti]
         req = chosen[idx]['req']
-        field, cls = _culprit(req)
+        clause, _, stage = clause_stage.partition('@')
+        field, cls = _culprit(req, clause, stage, actual)
         endpoint = templates[req['target']].endpoint
         descr = {'check': 'pipeline', 'clause': clause, 'via': req['via'], 'method': req['method'],
-                 'endpoint': endpoint, 'field': field, 'class': cls}
+                 'field': field, 'class': cls}
         if clause == 'NoEscape':
             descr['exc'] = actual['escaped']
+            descr['where'] = actual['where']
         if clause in ('Outcome', 'OutcomeAllowed'):
             descr['got'] = f'{actual["status"] // 100}xx/{actual["body"]}'
             descr['allowed'] = '|'.join(sorted(chosen[idx]['allowed']))
-        if field in ('envelope', 'none') or clause == 'RejectIsNoop':
+        if field in ('xml', 'envelope', 'target', 'none') or \
+                (field == 'path' and cls in ('valid', 'unknown_service', 'extra_segments')):
+            descr['endpoint'] = endpoint      # behind the HTTP handler the two endpoints run different code
+        if field in ('envelope', 'target', 'none') or clause == 'RejectIsNoop':
             descr['target'] = req['target']
         what = (f'{req["via"]} {endpoint} {req["target"]}: {field}={cls} -> clause {clause} fails: status='
-                f'{actual["status"]} body={actual["body"]} escaped={actual["escaped"]} spin={actual["spin"]} '
-                f'timeout={actual["timeout"]} unbounded_read={actual["unbounded_read"]} '
+                f'{actual["status"]} body={actual["body"]} escaped={actual["escaped"]} at {actual["where"]} '
+                f'spin={actual["spin"]} timeout={actual["timeout"]} unbounded_read={actual["unbounded_read"]} '
                 f'expanded={actual["expanded"]} state_same={actual["state_same"]} ({actual["detail"][:160]})')
         run.violation(descr, what, _replay_obj(templates, req, v, run.seed, actual))
     # samples: one accepted, one faulted, one HTTP-level request
